@@ -69,6 +69,32 @@ T = {
               ">= 2 Notified futures registered when notify_waiters() runs; the task owning a later one is scheduled inside the oneshot send to an earlier one and drops (or polls with a "
               "stored permit) its Notified: remove_waiter panics in a correct tokio program",
               "cargo test --offline -p shuttle-tokio-impl-inner --test seed_demo  (seed_demo.rs copied to wrappers/tokio/impls/tokio/inner/tests/)"),
+    "C02-b": ("C02", "C02.R1|switch-first", "before",
+              "Condvar::notify_all returns without a choice point when nobody waits: notifier's previous visible op not under the waiter's mutex, the waiter observes it and then waits; "
+              "the outcome `saw the flag and was woken by that broadcast` becomes unreachable",
+              "cargo test --offline -p shuttle --test seed_demo"),
+    "C03-b": ("C03", "C03.R4|report-names-unfinished", "before",
+              "a real deadlock while a detached async task is still unfinished: the report no longer names the detached task",
+              "cargo test --offline -p shuttle --test seed_demo"),
+    "C04-b": ("C04", "C04.R5|no-borrow-across-choice-point", "after",
+              "a task holding the RwLock for reading calls try_read again (re-entrant failure path) while another task uses the same lock and is scheduled inside the give-back release: "
+              "`RefCell already borrowed` panic instead of a granted read",
+              "cargo test --offline -p shuttle --test seed_demo"),
+    "C05-b": ("C05", "C05.PK", "after",
+              "unpark(T) while T is not parked, then T is unblocked by another primitive (mutex/barrier/join...), then T parks: the pending token was discarded by Task::unblock and T blocks forever",
+              "cargo test --offline -p shuttle --test seed_demo"),
+    "C06-b": ("C06", "C06.CHAIN|one-wake-up-is-unconditional", "after",
+              "bounded channel of capacity >= 2, two senders parked on the full channel, the receiver drains everything and blocks before the first woken sender runs: the second sender is never released (two cooperating edits, each harmless alone)",
+              "cargo test --offline -p shuttle --test seed_demo"),
+    "C07-b": ("C07", "C07.R6", "before (floor), after (closed set of poppers)",
+              "a thread with >= 2 thread-locals where the destructor of an earlier-initialised one reads a later-initialised one: it sees AccessError although that value's destructor has not run",
+              "cargo test --offline -p shuttle --test seed_demo"),
+    "C12-b": ("C12", "C12.R1|persists-every-failure-kind", "after",
+              "a task failure whose unwinding does not run the panic hook at the final schedule length: payload raised with resume_unwind, or a caught panic forwarded after a scheduling point — no schedule (or only a non-reproducing prefix) is emitted",
+              "cargo test --offline -p shuttle --test seed_demo"),
+    "C17-b": ("C17", "C17.R5|fresh-waker-on-pending", "before (rule added for C03-a)",
+              "a JoinHandle polled once with one waker and then awaited with another (moved to another task / pushed into FuturesUnordered) before the task completes",
+              "cargo test --offline -p shuttle --test seed_demo"),
     "C17-a": ("C17", "C17.R2|wake-sets-woken", "before",
               "a waker invoked (or abort called) while the task is Blocked inside its poll on a blocking primitive (mpsc recv, Condvar, Barrier, join, park): the wake is forgotten and the task sleeps forever",
               "cd demo && cargo test --offline"),
@@ -77,9 +103,10 @@ T = {
 
 def main():
     res = {}
-    p = os.path.join(HERE, "selftest", "seeded-results.json")
-    if os.path.exists(p):
-        res = {r["id"]: r for r in json.load(open(p))["results"]}
+    for name in ("seeded-results.json", "seeded-results-b.json"):
+        p = os.path.join(HERE, "selftest", name)
+        if os.path.exists(p):
+            res.update({r["id"]: r for r in json.load(open(p))["results"]})
     for sid, (prop, expect, when, needs, demo) in sorted(T.items()):
         d = os.path.join(HERE, "seeded", sid)
         if not os.path.isdir(d):
